@@ -53,7 +53,7 @@ func spec_icmptable_ok() bool {
 // echoNotify(id): the waiter registered under id (if any) is marked as answered and removed;
 // waiters under any other identifier are untouched; an identifier nobody waits for changes nothing.
 //
-//verif:props C19
+//verif:props C16 C19
 func verif_contract_echoNotify(id uint16, other uint16) {
 	vRequires(spec_icmptable_ok())
 	vCanary()
@@ -65,7 +65,9 @@ func verif_contract_echoNotify(id uint16, other uint16) {
 	}
 	n0 := len(icmpTable.table)
 	vModifiesMems("packet.icmpEntry/", "packet.icmpTable", "map[uint16]*")
+	a0 := vAllocs()
 	echoNotify(id)
+	vEnsures(vAllocs() == a0) // C16: waking a waiter does not allocate
 	_, in1 := icmpTable.table[id]
 	vEnsures(!in1)
 	if in0 {
@@ -149,3 +151,4 @@ func verif_contract_Session_Ping6(h *Session, srcAddr Addr, dstAddr Addr, timeou
 	vEnsures(spec_icmptable_ok())
 	return err
 }
+
